@@ -836,9 +836,6 @@ def judge_cases(run: Run, W: World, cases, label='judgement'):
         if a['fk'] == '1':
             tags.append('F18k')
             st.count('type-argument-kind-test')
-        if a['fn'] == '1':
-            tags.append('F18n')       # repaired on branch fix-c18-3; until it is in the reference tree a finding
-            st.count('attribute-name-test-with-namespaces')
         if im != a['match'] or (spec is not None and im != spec):
             run.disagree(Disagreement(dict(case, op='match_sequence_type'), im, a['match'], spec,
                                       what='match_sequence_type', site='sequence_types.match_sequence_type', tags=tags))
